@@ -141,4 +141,16 @@ theorem chan_want_within (w old : Mode) (hw : w ≠ modeUnset) : chanWant w old 
 example : chanWant modeCFull modeCChnReader = modeCChnReader ∧ chanWant modeNone modeCChnReader = modeJoin ||| modeRead := by
   constructor <;> decide
 
+/-- a channel reader cannot publish: the reader's grant is join/read/presence, whatever is requested -/
+theorem reader_cannot_publish (c : Ctx) (a : Actor) (tn : TName) (content : String) (head : List (String × String)) (noEcho : Bool)
+    (t : Topic) (hatt : c.w.attached a.sid tn = true) (hl : c.w.live? tn = some t) (hi : t.inactive = false) (hro : t.readOnly = false)
+    (hg : (t.pud a.uid).given = modeCChnReader) :
+    c.opPubC a tn content head noEcho = c.emit a.sid (ctrl 403 tn) := by
+  have hw : isWriter (eff (t.pud a.uid)) = false := by
+    unfold eff; rw [isWriter_and, hg]
+    have : isWriter modeCChnReader = false := by decide
+    rw [this, Bool.and_false]
+  unfold Ctx.opPubC
+  simp [hatt, hl, hi, hro, hw]
+
 end Tinode.Props.C02
